@@ -31,7 +31,7 @@ SPEC = {
     "min_counts": {"quick": {"evaluations": 800, "oracle_evals": 200000, "splits_checked": 20000, "targets_checked": 25000,
                              "partitions_checked": 40000, "halo_splits": 8000, "relative_splits": 3000,
                              "position_space_splits": 5000, "div_splits": 1000, "deep_splits": 1500,
-                             "tensor_splits": 800, "nested_resplits": 300, "elements_located": 50000},
+                             "tensor_splits": 800, "nested_resplits": 300, "elements_located": 50000, "boundary_fiber_splits": 1500},
                    "thorough": {"evaluations": 10000, "oracle_evals": 4000000, "splits_checked": 400000,
                                 "deep_splits": 30000, "tensor_splits": 15000, "nested_resplits": 6000}},
     "assumptions": [
@@ -77,7 +77,7 @@ def _sys_ops(n, hmax, thorough, salt):
     for sl in SPLIT_LISTS if thorough else SPLIT_LISTS[:10]:
         for pre, post in few:
             k += 1
-            ops.append(_op("splitNonUniform", sl, k % 3 == 0, pre, post))
+            ops.append(dict(_op("splitNonUniform", sl, k % 3 == 0, pre, post), argform=["list", "fiber", "fiber-zeros"][k % 3 if k % 2 else 0]))
     for st in range(1, (6 if thorough else 5)):
         for pre, post in few:
             k += 1
@@ -131,7 +131,8 @@ def _rand_op(rng, ext, depth, by="depth", allow_div=False):
         pts = sorted(rng.sample(range(0, ext + 5), min(k, ext + 5)))
         if rng.random() < 0.35 and pts[0] != 0:
             pts = [0] + pts
-        return _op("splitNonUniform", pts, rel, pre, post, depth, by)
+        # the boundaries may come as a fiber (its coordinates are the boundaries, whatever its payloads are)
+        return dict(_op("splitNonUniform", pts, rel, pre, post, depth, by), argform=rng.choice(["list", "list", "fiber", "fiber-zeros"]))
     if r < 0.80:
         return _op("splitEqual", rng.randint(1, 5), rel, pre, post, depth, by)
     return _op("splitUnEqual", [rng.randint(1, 4) for _ in range(rng.randint(1, 4))], rel, pre, post, depth, by)
@@ -301,6 +302,9 @@ def _invoke(obj, op, entry, ids):
         if op["post"]:
             kw["post_halo"] = op["post"]
         a = list(arg) if isinstance(arg, list) else arg
+        if name == "splitNonUniform" and op.get("argform", "list") != "list":
+            zeros = op["argform"] == "fiber-zeros"
+            a = Fiber(list(arg), [(0 if (zeros and i % 2 == 0) else i + 1) for i in range(len(arg))])
         if entry == "below":
             getattr(obj, name + "Below")(a, depth=op["depth"] - 1, **kw)
             res = obj
@@ -520,6 +524,8 @@ def _run_split(mon, case, op, obj, root, ids, d, entry):
                       f"{[([c for c, _ in t['elems']], (t['a0'], t['a1'])) for t in targets if t['fiber']][:4]}")
         return None
     mon.count("splits_checked")
+    if op.get("argform", "list") != "list":
+        mon.count("boundary_fiber_splits")
     if op["pre"] or op["post"]:
         mon.count("halo_splits")
     if op["rel"]:
